@@ -112,6 +112,8 @@ def call(side, t, ops):
         return f(list(ops), *extra, **kw)
     if fn == "einsum":
         return f(t["spec"], *ops, **kw)
+    if fn == "where" and t.get("raw_condition"):
+        return f(ops[0], ops[1], ops[2])
     if fn == "where":
         return f(ops[0] > 0 if not isinstance(ops[0], mg.Tensor) else ops[0].data > 0, ops[1], ops[2], **({"constant": kw["constant"]} if "constant" in kw else {}))
     return f(*ops, *extra, **kw)
